@@ -224,6 +224,14 @@ func NewRun(prop string, seed int64, tier string) (*Trace, *Gen) {
 	} else if g.pct(25) {
 		k.StartPO, k.StartWrk, k.StartBeacon = 1000, 4294967295, 256
 	}
+	if prop == "C15" && (tier == "thorough" && g.pct(10) || tier != "thorough" && g.pct(4)) {
+		// a registration with more records than an export carries, injected through genesis
+		k.BigReg = &BigReg{Kind: pick(r, []string{"wrk", "bcn"}), N: ExportCap + uint64(pick(r, []int{1, 2, 5, 300}))}
+		if k.StartWrk < 2 {
+			k.StartWrk, k.StartBeacon = 2, 2
+		}
+		t.Flags = append(t.Flags, "bigreg")
+	}
 	k.GovSecs = int64(10 + r.Intn(50))
 	if g.Flags["huge"] {
 		k.Balance = "10000000000000000000000000000000000000000" // 10^40
